@@ -157,3 +157,9 @@ func LineStartOf(src string, holes []Hole, needle string) int {
 	s := subst(src[:i], holes)
 	return strings.LastIndex(s, "\n") + 1
 }
+
+// PoisonFiles / PoisonInfo / PoisonFset: values that must never be read. Symbolically any read aborts the run as
+// inconclusive, which turns "returns no violation" into "returns no violation without having looked at any file".
+func PoisonFiles() []*ast.File  { return nil }
+func PoisonInfo() *types.Info   { return nil }
+func PoisonFset() *token.FileSet { return nil }
